@@ -52,6 +52,7 @@ Theorem py_go_same_wire_refuted_optional_constant :
   py_valid_object wit_const_ctx "w" "Root" (JObj [("id", JStr "a")]) = true /\
   py_rt_safe_object wit_const_ctx "w" "Root" (JObj [("id", JStr "a")]) = false.
 Proof. exact PySemProofs.wit_const_facts. Qed.
+Print Assumptions py_go_same_wire_refuted_optional_constant.
 
 (* partial, RELATIVE to the Go round-trip conclusion of C01 (premise `le_null_u d g`: Go's output g is the
    document up to omitted null members, what go_roundtrip_nf_partial states on roundtrip_safe documents): on
